@@ -324,6 +324,22 @@ func runStream(c *Case, r *mon.Rec, rng *rand.Rand) {
 		frames = append(frames, f)
 		all = append(all, f.b...)
 	}
+	// half of the streams end with bytes that are not Modbus TCP at all (the client's next write was garbage and was
+	// coalesced with its requests): the requests before it were complete and are still owed their own replies, in order
+	garbage := ""
+	if rng.Intn(2) == 0 {
+		g := specref.Frame(specref.TCP, uint16(rng.Intn(65536)), libx.U8(rng), []byte{3, 0, 1, 0, 1})
+		switch garbage = []string{"protocol-id", "mbap-length", "function-0"}[rng.Intn(3)]; garbage {
+		case "protocol-id":
+			g[2+rng.Intn(2)] = byte(1 + rng.Intn(255))
+		case "mbap-length":
+			g[4], g[5] = 0, byte(rng.Intn(3))
+		case "function-0":
+			g[7] = 0
+		}
+		all = append(all, g...)
+		r.Cover("stream-garbage-tail", garbage)
+	}
 	var cuts []int
 	p := 0
 	for p < len(all)-1 {
@@ -363,7 +379,7 @@ func runStream(c *Case, r *mon.Rec, rng *rand.Rand) {
 		checkReply(c, r, f, out[:n], want, "stream")
 		out = out[n:]
 	}
-	if len(out) > 0 {
+	if len(out) > 0 && garbage == "" {
 		r.Violate(c, "surplus-reply-bytes", mon.Attrs{"where": "stream"}, fmt.Sprintf("% x", head(out)))
 	}
 }
